@@ -710,7 +710,7 @@ def dfs_single(acc, space, start, alph, maxlen, count_from, prefix):
         return
     if counted and payload >= 2:
         acc.keys.append(enc(space, prefix))
-        if len(prefix) == 3 and len(acc.samples) < 1 and prefix[-1] % 7 == 3:
+        if len(prefix) == 3 and len(acc.samples) < 1 and len(set(o[0] for o in ops)) == 3 and prefix[0] % 11 == 0:
             acc.samples.append({"start": start, "ops": ops})
     if len(prefix) < maxlen:
         for i in alph:
@@ -894,7 +894,11 @@ def build_run(tier, seed):
     for (clause, klass) in sorted(merged):
         cnt, exs = merged[(clause, klass)]
         exs.sort(key=lambda t: (t[0], repr(t[1])))
-        for size, inp, detail in exs[:3]:
+        shown = set()
+        for size, inp, detail in exs:
+            if repr(inp) in shown or len(shown) >= 3:
+                continue
+            shown.add(repr(inp))
             run.fail(clause, klass, inp, detail)
         run.counts["%s|%s" % (clause, klass)] = cnt
     run.exhaustive = True
